@@ -39,18 +39,44 @@ func TestVerif_C39_Sched(t *testing.T) {
 
 	bound := venum.QT(2, 3)
 	sp := venum.Explore(t, venum.Cfg{Name: "async-emitter-schedules", PreemptBound: bound, Shardable: true, CheckDeterminism: true}, func(x *venum.X) {
-		scenario := x.Choose(4, "scenario") // 0 gated writer, 1 racing closer, 2 closer + late enqueue, 3 gated writer + racing closer
+		scenario := x.Choose(5, "scenario") // 0 gated writer, 1 racing closer, 2 closer + late enqueue, 3 gated writer + racing closer, 4 sampling + async with a gate opener
 		queue := 1 + x.Choose(2, "queue")
 		perThread := 2
 		if scenario == 0 && venum.Thorough() {
 			perThread = 3
 		}
-		gated := scenario == 0 || scenario == 3
+		gated := scenario == 0 || scenario == 3 || scenario == 4
 		w := &vfGateWriter{}
 		if gated {
 			w.gated = &gated
 		}
 		hook := NewAccessLogHook(w, "")
+		sampledIn := map[string]bool{}
+		var s4ids []string
+		if scenario == 4 {
+			// which ids does a 0.5 sampler keep? learned from a synchronous hook
+			// (the fate of an id is deterministic), never from the async run
+			var ref strings.Builder
+			refHook := NewAccessLogHook(&ref, "")
+			_ = refHook.SetSampleRate(0.5)
+			for i := 0; i < 12; i++ {
+				id := fmt.Sprintf("%032x", i*2654435761+7)
+				refHook.emit(map[string]any{"id": id, "stream_id": id, "status": "ok"})
+			}
+			for i := 0; i < 12; i++ {
+				id := fmt.Sprintf("%032x", i*2654435761+7)
+				if strings.Contains(ref.String(), id) {
+					sampledIn[id] = true
+				}
+				s4ids = append(s4ids, id)
+			}
+			if len(sampledIn) == 0 || len(sampledIn) == len(s4ids) {
+				venum.EngineError("C39 scenario 4: id pool does not mix sampled-in and sampled-out ids (%d of %d kept)", len(sampledIn), len(s4ids))
+				return
+			}
+			_ = hook.SetSampleRate(0.5)
+			s4ids = s4ids[:7]
+		}
 		var order []string        // ids in the order their enqueue returned
 		beforeClose := map[string]bool{}
 		closeCalled := false
@@ -77,6 +103,20 @@ func TestVerif_C39_Sched(t *testing.T) {
 				}
 			}
 			enq := func(name string) func() {
+				if scenario == 4 {
+					return func() {
+						if name != "A" {
+							return
+						}
+						for _, id := range s4ids {
+							hook.emit(map[string]any{"id": id, "stream_id": id, "status": "ok"})
+							if sampledIn[id] { // only sampled-in records are enqueued at all
+								order = append(order, id)
+								beforeClose[id] = true
+							}
+						}
+					}
+				}
 				return func() {
 					for i := 1; i <= perThread; i++ {
 						id := fmt.Sprintf("%s%d", name, i)
@@ -102,6 +142,13 @@ func TestVerif_C39_Sched(t *testing.T) {
 			case 0:
 				vsched.Join(t1, t2) // must complete with the writer stuck at its gate
 				gated = false
+				closeCalled = true
+				_ = hook.Close()
+			case 4:
+				// one emitter, sampling on; the gate opens at a schedule-chosen moment
+				vsched.Join(t2) // enqB is unused here and returns at once
+				opener := vsched.GoNamed("gate-opener", func() { gated = false })
+				vsched.Join(t1, opener)
 				closeCalled = true
 				_ = hook.Close()
 			case 3:
@@ -161,7 +208,11 @@ func TestVerif_C39_Sched(t *testing.T) {
 		seen := map[string]bool{}
 		for _, r := range written {
 			if _, ok := pos[r.ID]; !ok {
-				x.Failf(sig+":phantom-record", "written record %q was never emitted", r.ID)
+				if scenario == 4 {
+					x.Failf(sig+":sampled-out-record-written", "record %q is sampled out at rate 0.5 but was written", r.ID)
+				} else {
+					x.Failf(sig+":phantom-record", "written record %q was never emitted", r.ID)
+				}
 				return
 			}
 			if seen[r.ID] {
